@@ -156,7 +156,7 @@ func (ba *badgerBatch) VisitCleanNode(ptr *node.Pointer, parent *node.Pointer) e
 
 	}
 
-	if err := ba.refreshDbPtr(ptr, parent); err != nil {
+	if err := ba.refreshDbPtr(ptr, parent, iptr); err != nil {
 		return err
 	}
 
@@ -168,11 +168,14 @@ func (ba *badgerBatch) VisitCleanNode(ptr *node.Pointer, parent *node.Pointer) e
 
 // Implements api.Batch.
 func (ba *badgerBatch) VisitDirtyNode(ptr *node.Pointer, parent *node.Pointer) error {
-	return ba.refreshDbPtr(ptr, parent)
+	return ba.refreshDbPtr(ptr, parent, nil)
 }
 
 // refreshDbPtr recomputes the data for the internal database pointer.
-func (ba *badgerBatch) refreshDbPtr(ptr *node.Pointer, parent *node.Pointer) error {
+//
+// In case the pointer has no database pointer a new one is assigned; prev is what the pointer carried
+// before the caller has reset it (if anything) and is restored in case the batch is not committed.
+func (ba *badgerBatch) refreshDbPtr(ptr *node.Pointer, parent *node.Pointer, prev node.DBPointer) error {
 	if ptr.DBInternal == nil {
 		// Assign new index if none exists.
 		var index uint32
@@ -189,6 +192,7 @@ func (ba *badgerBatch) refreshDbPtr(ptr *node.Pointer, parent *node.Pointer) err
 			version: ba.version,
 			index:   index,
 		}
+		ba.assignedPtrs = append(ba.assignedPtrs, assignedPtr{ptr: ptr, prev: prev})
 	}
 
 	// If this is a multipart insert, the node may already exist. In this case, we need to fetch it
